@@ -28,7 +28,10 @@ Abstractions.  Backend content `cfg = 4 * conf + epv`: `conf` = everything but t
 (deleted d, added a) left by `Shrink` is handled by `checkBackendPair`: more slots than before ⇒
 no command, reload; otherwise one Send for the real endpoint when its address changed plus one
 Send per empty slot of `a`, and the added object inherits the old slots (`len = len(d)`); the
-pair is "updated" iff `conf` is unchanged and every Send was answered well.  Hosts: C05 `HStore`
+pair is "updated" iff `conf` is unchanged, every Send was answered well, and the deleted object
+went through `WriteBackendMaps` or a rendering once: both call `Backend.NeedACL()/PathConfig()`,
+which fill the unexported `pathConfig` that `reflect.DeepEqual(&oldBackCopy, curBack)` compares
+(`pcI`/`pcD`; an object acquired in a batch whose update failed before stage 3 has none).  Hosts: C05 `HStore`
 (content abstract).  One tcp service (content `want`, 0 = none) rendered into its sni map, its
 crt-list and its `listen` section of haproxy.cfg.  Backend maps: one file set per backend whose
 `conf` needs ACLs (`needACL`), holding `conf`.  haproxy.cfg also holds whether any host exists
@@ -95,6 +98,8 @@ structure FW (p : Nat) where
   tcp : Tcp := {}
   bm : Fin p → Option Nat := fun _ => none   -- backend map files
   mainHosts : Bool := false                  -- haproxy.cfg references the host maps
+  pcI : Fin p → Bool := fun _ => false       -- the object in `items x` has its `pathConfig` (see `pairOK`)
+  pcD : Fin p → Bool := fun _ => false       -- the object in `itemsDel x` has it
   run : Files p := {}                        -- what the running HAProxy holds
   pending : Bool := false                    -- the reload queue holds an item
 
@@ -138,16 +143,27 @@ def anyRange (f : Nat → Bool) (lo : Nat) : Nat → Bool
   | 0 => false
   | n + 1 => f (lo + n) || anyRange f lo n
 
+/-- HAProxy answers "No such server." when the addressed server is not part of what it loaded: the
+server of the real endpoint exists iff the backend is loaded, the one of the `j`-th empty slot iff the
+loaded backend has more than `j` slots -/
+def knowsServers (rb : Fin p → Option Content) (s : Store p) (x : Fin p) : Bool :=
+  match pair? s x with
+  | some (_, a) =>
+    nsend s x == 0 || (match rb x with | some r => decide (a.slots ≤ r.slots) | none => false)
+  | none => true
+
 /-- `checkBackendPair` answers true -/
-def pairOK (s : Store p) (bad : Nat → Bool) (x : Fin p) : Bool :=
+def pairOK (s : Store p) (bad : Nat → Bool) (rb : Fin p → Option Content) (pcD : Fin p → Bool) (x : Fin p) : Bool :=
   match s.add x with
   | none => true                                   -- removed backends are not looked at
   | some _ =>
     match pair? s x with
     | none => false                                -- added backend, or more endpoints than slots
-    | some (d, a) => conf a == conf d && !anyRange bad (base s x) (nsend s x)
+    | some (d, a) =>
+      conf a == conf d && pcD x && !anyRange bad (base s x) (nsend s x) && knowsServers rb s x
 
-def backendUpdated (s : Store p) (bad : Nat → Bool) : Bool := !anyFin fun x => !pairOK s bad x
+def backendUpdated (s : Store p) (bad : Nat → Bool) (rb : Fin p → Option Content) (pcD : Fin p → Bool) : Bool :=
+  !anyFin fun x => !pairOK s bad rb pcD x
 
 /-- the added object of a pair inherits the remaining empty slots of the deleted one -/
 def dynStore (sh : Sh p) (s : Store p) : Store p :=
@@ -173,6 +189,12 @@ def writeCfg (sh : Sh p) (s : Store p) (d : Disk p) (lim : Option Nat) : Disk p 
   if sh.n = 0 then fun k => if k = 0 then s.items else d k
   else fun k =>
     if s.changed k && (match lim with | none => true | some f => decide (k < f)) then s.shards k else d k
+
+/-- the template renders backend `x` (and fills its `pathConfig`) -/
+def rendered (sh : Sh p) (s : Store p) (lim : Option Nat) (x : Fin p) : Bool :=
+  (s.items x).isSome &&
+    (if sh.n = 0 then true
+     else s.changed (sh.shardOf x) && (match lim with | none => true | some f => decide (sh.shardOf x < f)))
 
 def hasHosts (s : HStore p) : Bool := anyFin fun x => (s.items x).isSome
 def backChanged (s : Store p) : Bool := anyFin fun x => (s.add x).isSome || (s.del x).isSome
@@ -200,6 +222,7 @@ def reload (sh : Sh p) (f : Fault) (w : FW p) : FW p × Bool :=
 def upd (o : Opt) (sh : Sh p) (f : Fault) (w : FW p) : Res p :=
   let s0 := shrink sh w.g.w.store
   let hs0 := w.h.shrink
+  let w : FW p := { w with pcI := fun x => if matched w.g.w.store x then w.pcD x else w.pcI x }
   -- 1
   if w.tcp.changed && f == .tcpMaps then { w := commitAll w s0 hs0, err := true } else
   let w1 : FW p := if w.tcp.changed then { w with tcp := { w.tcp with map := w.tcp.want } } else w
@@ -213,8 +236,9 @@ def upd (o : Opt) (sh : Sh p) (f : Fault) (w : FW p) : Res p :=
   if bchg && bmFiles && f == .backMaps then { w := commitAll w1 s0 hs1, err := true } else
   let w3 : FW p := if bchg then
       { w1 with bm := fun x => match s0.add x with
-          | some c => if o.needACL (conf c) then some (conf c) else w1.bm x
-          | none => w1.bm x }
+                  | some c => if o.needACL (conf c) then some (conf c) else w1.bm x
+                  | none => w1.bm x
+                pcI := fun x => (s0.add x).isSome || w1.pcI x }
     else w1
   -- 4
   if w.tcp.want != 0 && f == .crtLists then { w := commitAll w3 s0 hs1, err := true } else
@@ -224,7 +248,7 @@ def upd (o : Opt) (sh : Sh p) (f : Fault) (w : FW p) : Res p :=
   let s5 := if dynRuns then dynStore sh s0 else s0
   let sends := if dynRuns then totalSends s0 else 0
   let w5 : FW p := if dynRuns then { w4 with run := { w4.run with back := dynRun s0 f.bad w4.run.back } } else w4
-  let updated := dynRuns && !w.tcp.changed && !hs0.isChanged && backendUpdated s0 f.bad
+  let updated := dynRuns && !w.tcp.changed && !hs0.isChanged && backendUpdated s0 f.bad w4.run.back w.pcD
   -- 6
   let doWrite := !updated || decide (0 < sends) || bchg
   if doWrite && f == .mainCfg then { w := commitAll w5 s5 hs1, err := true, sends := sends } else
@@ -236,7 +260,9 @@ def upd (o : Opt) (sh : Sh p) (f : Fault) (w : FW p) : Res p :=
     | _ => none
   let w6 : FW p := if doWrite then
       { setDisk w5 (writeCfg sh s5 w5.g.w.disk lim) with
-        tcp := { w5.tcp with main := w.tcp.want }, mainHosts := hasHosts hs1 }
+        tcp := { w5.tcp with main := w.tcp.want }
+        mainHosts := anyFin fun x => (hs1.maps x).isSome      -- rendered from the `frontend.Maps` object
+        pcI := fun x => rendered sh s5 lim x || w5.pcI x }
     else w5
   if shardFails then { w := commitAll w6 s5 hs1, err := true, sends := sends } else
   -- 7
@@ -267,15 +293,20 @@ inductive Ev (p : Nat) where
 def setStore (w : FW p) (s : Store p) : FW p := { w with g := { w.g with w := { w.g.w with store := s } } }
 
 def step (o : Opt) (sh : Sh p) (w : FW p) : Ev p → FW p
-  | .acq x c => setStore w (acquire sh w.g.w.store x c)
-  | .rem xs => setStore w (removeAll sh w.g.w.store xs)
+  | .acq x c =>
+    { setStore w (acquire sh w.g.w.store x c) with
+      pcI := fun y => if y = x ∧ w.g.w.store.items x = none then false else w.pcI y }
+  | .rem xs =>
+    { setStore w (removeAll sh w.g.w.store xs) with
+      pcD := fun y => if xs.contains y ∧ (w.g.w.store.items y).isSome then w.pcI y else w.pcD y }
   | .hacq x c => { w with h := w.h.acquire x c }
   | .hrem xs => { w with h := w.h.removeAll xs }
   | .tcp v => { w with tcp := { w.tcp with want := v, changed := true } }
   | .full =>
     { w with g := { w := { w.g.w with store := clear sh w.g.w.store }, committed := false }
              h := w.h.clear
-             tcp := { w.tcp with want := 0, changed := false } }
+             tcp := { w.tcp with want := 0, changed := false }
+             pcD := w.pcI }
   | .upd f => (upd o sh f w).w
   | .qrun f => (qrun sh f w).w
 
